@@ -366,7 +366,24 @@ func checkLookupDoesNotRegister(c *Ctx, p *Prog, rule string) {
 		return
 	}
 	bad := ""
-	for g := range staticReachFrom(p, fn) {
+	reach := map[*ssa.Function]bool{}
+	var visit func(f *ssa.Function)
+	visit = func(f *ssa.Function) {
+		if f == nil || f.Pkg != p.Terminfo || reach[f] {
+			return
+		}
+		reach[f] = true
+		for _, a := range f.AnonFuncs {
+			visit(a)
+		}
+		eachInstr(f, func(in ssa.Instruction) {
+			if cc := callCommon(in); cc != nil {
+				visit(cc.StaticCallee())
+			}
+		})
+	}
+	visit(fn)
+	for g := range reach {
 		if g == add {
 			bad += "reaches AddTerminfo; "
 		}
@@ -380,4 +397,376 @@ func checkLookupDoesNotRegister(c *Ctx, p *Prog, rule string) {
 		})
 	}
 	c.Check(bad == "", rule, "LookupTerminfo:read-only", p.pos(fn.Pos()), "a lookup leaves the registry as it is "+bad)
+}
+
+// checkBareEscapeSkipped: a terminal that defines no ESC-introduced key gets "\x1b" itself registered as
+// the Esc key by the control-byte loop of the table builder (eterm).  The key matcher must pass over
+// that entry — a test of the table key against ESC that leads round the loop without the prefix match —
+// or ESC is taken as a complete key at once and never becomes the Alt prefix of what follows.
+func checkBareEscapeSkipped(c *Ctx, p *Prog, rule string) {
+	fn := p.Fn("tcell:(*tScreen).parseFunctionKey")
+	if fn == nil {
+		c.Undecided(rule, "parseFunctionKey", "-", "not found")
+		return
+	}
+	matches := callsIn(fn, func(n string, _ *ssa.CallCommon) bool { return n == "bytes.HasPrefix" })
+	if len(matches) == 0 {
+		c.Undecided(rule, "parseFunctionKey:match", p.pos(fn.Pos()), "no prefix match found")
+		return
+	}
+	stop := map[ssa.Instruction]bool{}
+	for _, m := range matches {
+		stop[m] = true
+	}
+	ok := false
+	eachInstr(fn, func(in ssa.Instruction) {
+		bo, isBO := in.(*ssa.BinOp)
+		if !isBO || (bo.Op != token.EQL && bo.Op != token.NEQ) {
+			return
+		}
+		isEsc := false
+		if k, isK := constInt(bo.Y); isK && k == 0x1b {
+			isEsc = true
+		}
+		if s, isS := constString(bo.Y); isS && s == "\x1b" {
+			isEsc = true
+		}
+		if !isEsc || !reachableAfter(bo, matches[0]) {
+			return
+		}
+		// one way out of this test goes round the loop without the match
+		blk := bo.Block()
+		if len(blk.Instrs) == 0 {
+			return
+		}
+		for _, sc := range blk.Succs {
+			if len(sc.Instrs) == 0 {
+				continue
+			}
+			seen := map[*ssa.BasicBlock]bool{}
+			var avoid func(b *ssa.BasicBlock) bool
+			avoid = func(b *ssa.BasicBlock) bool { // reaches a loop header dominating the test without a match
+				if seen[b] {
+					return false
+				}
+				seen[b] = true
+				for _, i2 := range b.Instrs {
+					if stop[i2] {
+						return false
+					}
+				}
+				if b.Dominates(blk) && b != blk {
+					return true
+				}
+				for _, s2 := range b.Succs {
+					if avoid(s2) {
+						return true
+					}
+				}
+				return false
+			}
+			if avoid(sc) {
+				ok = true
+			}
+		}
+	})
+	c.Check(ok, rule, "parseFunctionKey:bare-ESC-entry-skipped", p.pos(fn.Pos()), "a test of the table key against ESC goes round the loop without the prefix match (ESC alone stays the Alt prefix / the timed-out Esc key)")
+}
+
+// checkModePairsDiffer: in every description a mode's set and reset strings differ, and where both are
+// DEC private mode switches (CSI ? n h / CSI ? n l) of the same mode the one that enables ends in 'h'.
+func checkModePairsDiffer(c *Ctx, p *Prog, rule string, db *dbModel) {
+	pairs := [][2]string{{"EnterCA", "ExitCA"}, {"EnterKeypad", "ExitKeypad"}, {"HideCursor", "ShowCursor"}, {"DisableAutoMargin", "EnableAutoMargin"}, {"EnterAcs", "ExitAcs"}, {"EnablePaste", "DisablePaste"}}
+	n, bad := 0, ""
+	for _, e := range db.entries {
+		for _, pr := range pairs {
+			a, b := stripPadding(e.Str[pr[0]]), stripPadding(e.Str[pr[1]])
+			if a == "" || b == "" {
+				continue
+			}
+			n++
+			if a == b {
+				bad += fmt.Sprintf("%s: %s and %s are the same string %q; ", e.Name, pr[0], pr[1], a)
+				continue
+			}
+			// DEC private modes: ESC [ ? n h sets, l resets
+			if strings.HasPrefix(a, "\x1b[?") && strings.HasPrefix(b, "\x1b[?") && len(a) > 3 && len(b) > 3 && a[:len(a)-1] == b[:len(b)-1] {
+				// for auto-margin the *reset* side of our pair (Enable) is the one that sets the mode
+				wantA, wantB := byte('h'), byte('l')
+				if pr[0] == "DisableAutoMargin" || pr[0] == "HideCursor" {
+					wantA, wantB = 'l', 'h'
+				}
+				if a[len(a)-1] != wantA || b[len(b)-1] != wantB {
+					bad += fmt.Sprintf("%s: %s=%q %s=%q (set is h, reset is l); ", e.Name, pr[0], a, pr[1], b)
+				}
+			}
+		}
+	}
+	c.Check(n > 0 && bad == "", rule, "database:set-reset-pairs-differ", "-", fmt.Sprintf("%d set/reset pairs over the entries, each two different strings with the right final %s", n, bad))
+}
+
+// checkFormatFlagsAlways: in TParm's printf-style case the loop that collects the flags ('#', ' ', '+',
+// '-') runs for every specification, not only for those introduced by ':' (terminfo(5): the colon is
+// needed only in front of '-' and '+'; "%#x" and "% d" are written without it).
+func checkFormatFlagsAlways(c *Ctx, p *Prog, rule string) {
+	fn := p.Fn("terminfo:(*Terminfo).TParm")
+	if fn == nil {
+		c.Undecided(rule, "TParm", "-", "not found")
+		return
+	}
+	loops := loopsOf(fn)
+	n, bad := 0, ""
+	for h, body := range loops {
+		// a loop whose continuation tests compare a byte with '#' and with ' '
+		hash, space := false, false
+		for b := range body {
+			for _, in := range b.Instrs {
+				if bo, ok := in.(*ssa.BinOp); ok && bo.Op == token.EQL {
+					if k, isK := constInt(bo.Y); isK {
+						if k == '#' {
+							hash = true
+						}
+						if k == ' ' {
+							space = true
+						}
+					}
+				}
+			}
+		}
+		if !hash || !space || len(body) > 12 {
+			continue // not the flag loop (the main loop's dispatch compares with them too, but is large)
+		}
+		n++
+		for _, g := range rawGuardsAt(h) {
+			if bo, ok := g.Cond.(*ssa.BinOp); ok && bo.Op == token.EQL && g.Positive {
+				if k, isK := constInt(bo.Y); isK && k == ':' {
+					bad += "the flag loop at " + p.pos(firstPos(h)) + " runs only behind the ':' introducer; "
+				}
+			}
+		}
+	}
+	c.Check(n >= 1 && bad == "", rule, "TParm:format-flags-without-colon", p.pos(fn.Pos()), fmt.Sprintf("%d flag-collecting loop(s), reached whether or not the specification starts with ':' %s", n, bad))
+}
+
+// checkNoAliasedEncodeBuffer: what the simulation keeps as a cell's bytes is its own storage: nothing
+// stored into SimCell.Bytes is a reslice of the per-call encoder destination (the next rune's output
+// would overwrite it).
+func checkNoAliasedEncodeBuffer(c *Ctx, p *Prog, rule string) {
+	dc := p.Fn("tcell:(*simscreen).drawCell")
+	if dc == nil {
+		c.Undecided(rule, "simscreen.drawCell", "-", "not found")
+		return
+	}
+	host := transformHost(p, dc)
+	// the encoder's destination buffers
+	dst := map[ssa.Value]bool{}
+	eachInstr(host, func(in ssa.Instruction) {
+		cc := callCommon(in)
+		if cc != nil && cc.IsInvoke() && cc.Method.Name() == "Transform" && len(cc.Args) == 3 {
+			dst[sliceRoot(cc.Args[0])] = true
+		}
+	})
+	n, bad := 0, ""
+	for _, f := range []*ssa.Function{dc, host} {
+		eachInstr(f, func(in ssa.Instruction) {
+			st, ok := in.(*ssa.Store)
+			if !ok {
+				return
+			}
+			ref, _, isF := fieldAddrRef(st.Addr)
+			if !isF || ref.Owner != "tcell.SimCell" || ref.Name != "Bytes" {
+				return
+			}
+			n++
+			for _, src := range append(phiSources(st.Val), st.Val) {
+				if sl, isSl := src.(*ssa.Slice); isSl && dst[sliceRoot(sl)] {
+					bad += "SimCell.Bytes receives a reslice of the encoder's destination at " + p.pos(st.Pos()) + "; "
+				}
+			}
+		})
+		if host == dc {
+			break
+		}
+	}
+	// a helper returning the bytes: its returns
+	if host != dc {
+		for _, r := range returnsOf(host) {
+			for _, src := range append(phiSources(derefCell(resultOf(r, 0))), derefCell(resultOf(r, 0))) {
+				if sl, isSl := src.(*ssa.Slice); isSl && dst[sliceRoot(sl)] {
+					bad += "the encoded bytes returned at " + p.pos(r.Pos()) + " are a reslice of the encoder's destination; "
+				}
+			}
+		}
+	}
+	c.Check(len(dst) > 0 && bad == "", rule, "simscreen.drawCell:cell-bytes-own-storage", p.pos(dc.Pos()), fmt.Sprintf("%d store(s) into SimCell.Bytes, none aliasing the encoder's destination %s", n, bad))
+}
+
+// checkInjectKeyVerbatim: InjectKey delivers the key event it was asked for: the event is built from the
+// three parameters as they are (in InjectKey or in a helper it passes them on to unchanged).
+func checkInjectKeyVerbatim(c *Ctx, p *Prog, rule string) {
+	fn := p.Fn("tcell:(*simscreen).InjectKey")
+	if fn == nil || len(fn.Params) != 4 {
+		c.Undecided(rule, "simscreen.InjectKey", "-", "not found")
+		return
+	}
+	n, bad := 0, ""
+	for _, d := range deepInstrs(p, fn, 2, nil) {
+		cc := callCommon(d.in)
+		if cc == nil || !strings.HasSuffix(calleeName(cc), "NewEventKey") || len(cc.Args) != 3 {
+			continue
+		}
+		n++
+		for i := 0; i < 3; i++ {
+			if d.bindVal(cc.Args[i]) != ssa.Value(fn.Params[i+1]) {
+				bad += fmt.Sprintf("argument %d of NewEventKey is %s, not InjectKey's parameter %s; ", i+1, valName(cc.Args[i]), fn.Params[i+1].Name())
+			}
+		}
+	}
+	c.Check(n == 1 && bad == "", rule, "simscreen.InjectKey:delivers-what-was-injected", p.pos(fn.Pos()), fmt.Sprintf("%d event(s) built, from the key, rune and modifiers given %s", n, bad))
+}
+
+// checkWebKeyAlwaysPosts: every key the page reports becomes an event, except the four modifier keys
+// reported on their own: a return of onKeyEvent that no postEvent precedes is reached only through the
+// comparisons of the key name with those names.
+func checkWebKeyAlwaysPosts(c *Ctx, p *Prog, rule string) {
+	fn := p.Fn("tcell:(*wScreen).onKeyEvent")
+	if fn == nil {
+		c.Undecided(rule, "wScreen.onKeyEvent", "-", "not found")
+		return
+	}
+	posts := map[ssa.Instruction]bool{}
+	for _, call := range callsIn(fn, func(n string, _ *ssa.CallCommon) bool { return strings.HasSuffix(n, "wScreen).postEvent") }) {
+		posts[call] = true
+	}
+	mods := map[string]bool{"Control": true, "Alt": true, "Meta": true, "Shift": true}
+	n, bad := 0, ""
+	for _, r := range returnsOf(fn) {
+		if !existsPathFromEntryAvoiding(fn, r, posts) {
+			continue
+		}
+		n++
+		// every edge into the silent return is the true edge of `key == <modifier name>`
+		for _, pr := range r.Block().Preds {
+			okEdge := false
+			if iff, isIf := pr.Instrs[len(pr.Instrs)-1].(*ssa.If); isIf && pr.Succs[0] == r.Block() {
+				if bo, isBO := iff.Cond.(*ssa.BinOp); isBO && bo.Op == token.EQL {
+					if s, isS := constString(bo.Y); isS && mods[s] {
+						okEdge = true
+					}
+				}
+			}
+			if !okEdge {
+				bad += fmt.Sprintf("the return at %s is reached without an event from block %d (%s); ", p.pos(r.Pos()), pr.Index, p.pos(firstPos(pr)))
+			}
+		}
+	}
+	c.Check(len(posts) >= 1 && bad == "", rule, "onKeyEvent:every-key-becomes-an-event", p.pos(fn.Pos()), fmt.Sprintf("%d silent return(s), each only for a modifier key reported on its own %s", n, bad))
+}
+
+// checkResizeAlwaysClips: ViewPort.Resize compares the request with the PARENT's current size every
+// time: no return lies before the parent's Size() call except the one for a port without a parent
+// (a shortcut for "same arguments as last time" skips the clip when only the parent changed).
+func checkResizeAlwaysClips(c *Ctx, p *Prog, rule string, vp map[string]*ssa.Function) {
+	fn := vp["Resize"]
+	if fn == nil {
+		c.Undecided(rule, "ViewPort.Resize", "-", "not found")
+		return
+	}
+	stop := map[ssa.Instruction]bool{}
+	eachInstr(fn, func(in ssa.Instruction) {
+		if cc := callCommon(in); cc != nil && cc.IsInvoke() && cc.Method.Name() == "Size" {
+			stop[in] = true
+		}
+	})
+	bad := ""
+	for _, r := range returnsOf(fn) {
+		if !existsPathFromEntryAvoiding(fn, r, stop) {
+			continue
+		}
+		okNil := false
+		for _, g := range rawGuardsAt(r.Block()) {
+			if bo, ok := g.Cond.(*ssa.BinOp); ok && isNilConst(bo.Y) && ((bo.Op == token.EQL && g.Positive) || (bo.Op == token.NEQ && !g.Positive)) {
+				okNil = true
+			}
+		}
+		if !okNil {
+			bad += "the return at " + p.pos(r.Pos()) + " is reached without asking the parent for its size; "
+		}
+	}
+	c.Check(len(stop) > 0 && bad == "", rule, "Resize:always-clips-against-the-parent", p.pos(fn.Pos()), "every return but the one for a port without a parent lies behind the parent's Size() "+bad)
+}
+
+// checkReadLoopPassesStop: every way round a loop of inputLoop that contains the Tty read passes the
+// test of the stop channel: a reader that returns empty-handed (0, nil) must not spin past it.
+func checkReadLoopPassesStop(c *Ctx, p *Prog, rule string) {
+	fn := p.Fn("tcell:(*tScreen).inputLoop")
+	if fn == nil {
+		c.Undecided(rule, "inputLoop", "-", "not found")
+		return
+	}
+	var reads []ssa.Instruction
+	eachInstr(fn, func(in ssa.Instruction) {
+		if cc := callCommon(in); cc != nil && cc.IsInvoke() && cc.Method.Name() == "Read" && typeName(cc.Value.Type()) == "tcell.Tty" {
+			reads = append(reads, in)
+		}
+	})
+	// the stop tests: selects with a receive on the stop channel parameter
+	stops := map[ssa.Instruction]bool{}
+	eachInstr(fn, func(in ssa.Instruction) {
+		if sel, ok := in.(*ssa.Select); ok {
+			for _, st := range sel.States {
+				if st.Dir == types.RecvOnly && derefCell(st.Chan) == ssa.Value(fn.Params[len(fn.Params)-1]) {
+					stops[in] = true
+				}
+			}
+		}
+	})
+	bad := ""
+	for _, rd := range reads {
+		// a cycle from the read back to the read avoiding every stop test
+		if existsPathAvoidingTo(rd, rd, stops) {
+			bad += "the read at " + p.pos(rd.Pos()) + " can be repeated without looking at the stop channel; "
+		}
+	}
+	c.Check(len(reads) > 0 && len(stops) > 0 && bad == "", rule, "inputLoop:every-read-cycle-checks-stop", p.pos(fn.Pos()), fmt.Sprintf("%d read(s), %d stop test(s) %s", len(reads), len(stops), bad))
+}
+
+// existsPathAvoidingTo: a path of at least one edge from just after `from` to `to` that passes none of
+// the stop instructions.
+func existsPathAvoidingTo(from, to ssa.Instruction, stop map[ssa.Instruction]bool) bool {
+	b := from.Block()
+	idx := instrIndex(from)
+	// rest of the block
+	for _, in := range b.Instrs[idx+1:] {
+		if stop[in] {
+			return false
+		}
+		if in == to {
+			return true
+		}
+	}
+	seen := map[*ssa.BasicBlock]bool{}
+	stack := append([]*ssa.BasicBlock{}, b.Succs...)
+	for len(stack) > 0 {
+		x := stack[len(stack)-1]
+		stack = stack[:len(stack)-1]
+		if seen[x] {
+			continue
+		}
+		seen[x] = true
+		blocked := false
+		for _, in := range x.Instrs {
+			if stop[in] {
+				blocked = true
+				break
+			}
+			if in == to {
+				return true
+			}
+		}
+		if !blocked {
+			stack = append(stack, x.Succs...)
+		}
+	}
+	return false
 }
